@@ -209,9 +209,10 @@ DocOK(case, D, pos, Dev) ==
     /\ \A j, k \in DOMAIN it : (j < k /\ P(j) # 0 /\ P(k) # 0) => P(j) < P(k)
     /\ \A k \in DOMAIN it :
           IF P(k) # 0 THEN RecOK(case, A(k), D[P(k)], Dev)
-          ELSE /\ ~MustBeEmpty(case, A(k), Dev)
-               /\ \/ 0 \in Parts(case, A(k), Dev)
-                  \/ \E j \in DOMAIN it : j < k /\ P(j) # 0 /\ D[P(j)].m \in Parts(case, A(k), Dev)
+          ELSE IF MustBeEmpty(case, A(k), Dev)
+               THEN \E j \in DOMAIN it : j < k /\ P(j) # 0 /\ A(j).cands = A(k).cands   \* same href: once
+               ELSE \/ 0 \in Parts(case, A(k), Dev)
+                    \/ \E j \in DOMAIN it : j < k /\ P(j) # 0 /\ D[P(j)].m \in Parts(case, A(k), Dev)
     /\ \A p \in DOMAIN D : (\A i \in DOMAIN pos : pos[i] # p) => ExtraOK(case, D[p], Dev)
     /\ NumbersOK(case, D, pos, Dev)
 
